@@ -108,7 +108,13 @@ main(int argc, char *argv[])
 	unsetenv("OVNI_TMPDIR");
 	if (getenv("VERIF_TMPDIR")) {
 		/* streams are written to a temporary directory and relocated at thread end */
-		snprintf(path, sizeof(path), "%s/tmp", dir);
+		const char *how = getenv("VERIF_TMPDIR");
+		if (strcmp(how, "same") == 0)		/* OVNI_TMPDIR names the trace directory itself */
+			snprintf(path, sizeof(path), "%s/trace", dir);
+		else if (strcmp(how, "alias") == 0)	/* ... under another spelling */
+			snprintf(path, sizeof(path), "%s/./trace/", dir);
+		else
+			snprintf(path, sizeof(path), "%s/tmp", dir);
 		setenv("OVNI_TMPDIR", path, 1);
 	}
 
